@@ -311,8 +311,31 @@ def length(x):
 
 
 def pack(fmt, *args):
+    """struct.pack normal form: explicit-byte-order formats (no padding) are split into one pack per field, so that
+    pack('<HH', a, b) and pack('<H', a) + pack('<H', b) have the same normal form."""
     if not any(is_sym(a) for a in args):
         return struct.pack(fmt, *args)
+    import re
+    if fmt and fmt[0] in "<>=!":
+        items = re.findall(r"(\d*)([a-zA-Z?])", fmt[1:])
+        fields = []
+        for cnt, ch in items:
+            if ch in "sp":
+                fields.append((cnt or "1") + ch)
+            elif ch == "x":
+                fields.append(None)
+            else:
+                fields += [ch] * (int(cnt) if cnt else 1)
+        if len([f for f in fields if f is not None]) == len(args) and len(fields) > 1:
+            out = b""
+            it = iter(args)
+            for f in fields:
+                if f is None:
+                    out = cat(out, b"\x00")
+                else:
+                    a = next(it)
+                    out = cat(out, struct.pack(fmt[0] + f, a) if not is_sym(a) else op("pack", fmt[0] + f, a))
+            return out
     return op("pack", fmt, *args)
 
 
